@@ -11,7 +11,7 @@ for n in "${names[@]}"; do
   if ! git -C $WT apply $PWD/selftest/$n.diff; then echo "$n: patch does not apply"; rc=2; git -C /repo worktree remove --force $WT; continue; fi
   out=$(VERIF_REPO=$WT VERIF_REPLAY_OUT=/tmp/verif_selftest_out_$$/replays VERIF_EVIDENCE_OUT=/tmp/verif_selftest_out_$$/evidence ./check $P --tier ${TIER:-quick} 2>&1); c=$?
   v=$(echo "$out" | grep -m1 -o "VIOLATION property=[A-Z0-9]* .*signature=[^ ]*" | sed 's/replay=[^ ]* //')
-  if [ $c -eq 1 ]; then echo "$n: caught ($v)"; else echo "$n: NOT caught (exit $c) $(echo "$out" | tail -1 | cut -c1-200)"; rc=1; fi
+  if [ $c -eq 1 ]; then echo "$n: caught ($v)"; elif [ $c -eq 2 ]; then echo "$n: flagged as undecided (exit 2), no violation line: $(echo "$out" | grep -m1 -i "inconclusive\|requested cases\|UNDECIDED" | cut -c1-160)"; [ $rc -eq 0 ] && rc=3; else echo "$n: NOT caught (exit $c) $(echo "$out" | tail -1 | cut -c1-200)"; rc=1; fi
   git -C /repo worktree remove --force $WT
 done
 rm -rf /tmp/verif_selftest_out_$$
